@@ -242,7 +242,13 @@ def render_def(prog, d):
             args.append("version=%r" % d["version"])
         if d.get("declared"):
             # dependencies declared by (dotted) name: calls to them are legal although the body reaches them dynamically
-            args.append("dependencies=[%s]" % ", ".join(repr(_ref(prog, d["mod"], n)) for n in d["declared"]))
+            def dep_name(n):
+                if d.get("declared_q"):
+                    # memento's own qualified name of the function: [cluster::]module:function
+                    t = find(prog, n)
+                    return ("%s::" % t["cluster"] if t.get("cluster") else "") + modname(prog, t["mod"]) + ":" + rn(t)
+                return _ref(prog, d["mod"], n)
+            args.append("dependencies=[%s]" % ", ".join(repr(dep_name(n)) for n in d["declared"]))
         lines.append("@mf(%s)\n" % ", ".join(args) if args else "@mf\n")
     params = "x"
     if d.get("pdef") is not None:
@@ -683,6 +689,9 @@ def program_strategy(max_fns=6, two_modules=True, allow_hidden=True, allow_expli
                     if declare and tgt not in d.setdefault("declared", []):
                         # the dynamic callee is declared as a dependency (then it may also be a plain helper)
                         d["declared"].append(tgt)
+                        # (dependencies may also be declared by memento's qualified name, "module:function" - rendered when a
+                        # definition carries "declared_q"; not generated: with a reference cycle through such a declaration the
+                        # unchanged library recurses without end while the functions are being registered, see DESIGN.md 5.4)
                 else:
                     call = {"e": "call", "f": tgt}
                     form = draw(st.integers(0, 7))
